@@ -312,6 +312,17 @@ Definition parse (Hc : bytes -> bytes) (p : chain_params) (s : text) : res addr 
   | r => r
   end.
 
+(* CBitcoinAddress(x) for an argument that is not a str (a bytes object or an int): the first
+   statements of segwit_addr.bech32_decode raise TypeError (ord() of an int element of a bytes
+   object, bytes.rfind with a str argument for b'', iteration over an int), which __new__ does
+   not catch (it names Bech32Error only) *)
+Inductive pyarg := AStr (s : text) | ABytes (b : bytes) | AInt (n : Z).
+Definition parse_arg (Hc : bytes -> bytes) (p : chain_params) (x : pyarg) : res addr :=
+  match x with
+  | AStr s => parse Hc p s
+  | ABytes _ | AInt _ => Err TypeError
+  end.
+
 (* ===================== the same under the process-wide state ===================== *)
 Definition st_from_spk (H160 : bytes -> bytes) (st : pstate) (spk : bytes) : res addr :=
   do p <- params_of st; from_spk H160 p spk.
